@@ -182,6 +182,10 @@ class Node(xml.dom.Node):
         """
         if newChild.nodeType not in self._child_node_types:
             raise IllegalChild( "%s cannot be child of %s" % (newChild.tagName, self.tagName))
+        if refChild is not None and refChild not in self.childNodes:
+            raise xml.dom.NotFoundErr()
+        if newChild is refChild:
+            return newChild
         if newChild.parentNode is not None:
             newChild.parentNode.removeChild(newChild)
         if refChild is None:
